@@ -18,6 +18,12 @@ Oracle (clauses):
               central-difference ladder of t -> f(x + t d) (7 halvings,
               Romberg extrapolation, second-order test on the raw ladder;
               the error estimate depends on function values only)
+  grad-inplace / grad-alias
+              the gradient operator evaluated as grad(x, out=fresh NaN-filled
+              element) and as grad(y, out=y) (y a copy of x) leaves the same
+              element as the out-of-place call g = grad(x) at every node; a
+              deviating result is also confronted with the finite differences
+              (f.derivative(x) is field-valued, so it has no in-place style)
   derivative  f.derivative(x)(d) equals the same number
   value       every node (leaf or derived) against the NumPy reference of
               the documented expression, and derived nodes against the
@@ -73,6 +79,8 @@ TOLERANCES = {
                '1e-4*(|g|+||grad||*||d||) and err > 1e-6*S/(1+|x|) are '
                'counted as fd_unreliable, not judged; float32 spaces use '
                'eps32, 1e-3, 3e-2 and 1e-2',
+    'grad_call_styles': 'entry-wise |grad(x, out=.) - grad(x)| <= 256*eps*n*'
+                        '(max|grad| + S/(1+|x|)), S as in grad_fd',
     'derivative': '|f.derivative(x)(d) - <grad f(x),d>| <= 64*eps*n*(|g| + '
                   'sum w|grad||d|)',
     'value': '|f(x)-ref| <= 512*eps*n*(1+|ref|+sum w(|x|+x^2)) (+ the '
@@ -107,6 +115,7 @@ REQUIRED_STRATA = [
     'clause:grad-fd', 'clause:derivative', 'clause:value-ref',
     'clause:value-parts', 'clause:lipschitz', 'clause:lipschitz-curvature',
     'clause:numgrad', 'clause:not-offered', 'clause:is-linear',
+    'style:out-of-place', 'style:out-fresh', 'style:out-alias',
     'chain:trans-scale', 'chain:scale-trans', 'chain:sum-scale',
     'chain:pert-scale', 'linear:flagged', 'linear:part', 'cls:LinearForm',
     'rule:leftscal', 'rule:rightscal', 'rule:rightvec', 'rule:scalarsum',
@@ -626,6 +635,7 @@ def _check_node(B, pts, top, fd, ctx, probe=True):
     if not np.isfinite(fscale):
         fscale = 0.0
     best, err, q, order_ok = R.fd_estimate(phi, h0, eps, fscale=fscale)
+    rtol_fd = 1e-7 if not f32 else 1e-3
     xs_ = 1.0 + float(np.max(np.abs(xf)))
     reliable = best is not None and (
         err <= (1e-4 if not f32 else 3e-2) * (G + abs(best) + 1e-300) or
@@ -637,8 +647,7 @@ def _check_node(B, pts, top, fd, ctx, probe=True):
     else:
         hit('grad-fd')
         judged = True
-        rtol = 1e-7 if not f32 else 1e-3
-        t = rtol * (G + abs(best)) + 16 * err
+        t = rtol_fd * (G + abs(best)) + 16 * err
         if abs(g - best) > t:
             raise Violation(
                 sig('grad-fd'),
@@ -650,6 +659,59 @@ def _check_node(B, pts, top, fd, ctx, probe=True):
                                               for v in q]))
         if not order_ok:
             note('fd_order_test_failed')
+
+    # ---- (1b) call styles of the gradient operator ---------------------------
+    # g = grad(x) (judged above); grad(x, out=fresh NaN-filled element);
+    # y = x.copy(); grad(y, out=y).  All three must give the same element.
+    strata.append('style:out-of-place')
+    if sk != 'field':
+        gtol = 256 * eps * max(n, 1) * (
+            float(np.max(np.abs(gf))) + fscale / xs_) + 1e-300
+
+        def style_check(clause, got, what):
+            if got not in space:
+                raise Violation(sig(clause),
+                                '{} does not leave an element of the domain '
+                                'in out'.format(what))
+            gv = flat.flat(got, space)
+            dev = np.abs(gv - gf)
+            if np.all(dev <= gtol):
+                return
+            k = int(np.argmax(np.where(np.isnan(dev), np.inf, dev)))
+            g_in = inner(got, de)
+            fdtxt = 'not judged (finite differences unreliable)'
+            if reliable:
+                bad_fd = not abs(g_in - best) <= rtol_fd * (
+                    G + abs(best)) + 16 * err
+                fdtxt = ('<result, d> = {!r} {} the finite-difference '
+                         'derivative {!r}'.format(
+                             g_in, 'contradicts' if bad_fd else 'matches',
+                             best))
+            raise Violation(
+                sig(clause),
+                '{} differs from the out-of-place gradient: entry {} is {!r} '
+                'instead of {!r} (max deviation {:.3g}, tol {:.3g}); {}; x={}'
+                ''.format(what, k, float(gv[k]), float(gf[k]),
+                          float(np.nanmax(dev)) if not np.all(np.isnan(dev))
+                          else float('nan'), gtol, fdtxt, xf.tolist()))
+
+        fresh = flat.unflat(np.full(n, np.nan), space)
+        ret = grad(xe, out=fresh)
+        strata.append('style:out-fresh')
+        if ret is not None and ret is not fresh:
+            raise Violation(sig('grad-inplace'),
+                            'gradient(x, out=g) does not return g')
+        style_check('grad-inplace', fresh, 'gradient(x, out=fresh)')
+        ycopy = xe.copy()
+        ret = grad(ycopy, out=ycopy)
+        strata.append('style:out-alias')
+        if ret is not None and ret is not ycopy:
+            raise Violation(sig('grad-alias'),
+                            'gradient(y, out=y) does not return y')
+        style_check('grad-alias', ycopy, 'gradient(y, out=y)')
+        if not np.array_equal(flat.flat(xe, space), xf):
+            raise Violation(sig('grad-inplace'),
+                            'the evaluation point was modified')
 
     # ---- (2) derivative(x)(d) ----------------------------------------------
     try:
